@@ -86,6 +86,33 @@ def call_forms(fn, args, exp):
                 ok_shape, got = True, [f"raised {type(ex).__name__}: {ex}"[:160]] * n
             for i in range(n):
                 yield form, i, exp[i], (got[i] if ok_shape and i < len(got) else "wrong shape")
+        # every other integer type that can hold argument AND result ("all non-negative integers representable in the
+        # integer type used"): arrays, strided arrays and numpy scalars; the result must come back un-truncated
+        for tname in ("uint8", "int8", "uint16", "int16", "int32", "uint32", "uint64"):
+            t = getattr(np, tname)
+            top = np.iinfo(t).max
+            sel = [i for i in range(n) if all(0 <= x <= top for x in args[i]) and 0 <= exp[i] <= top]
+            if not sel:
+                continue
+            cols = [np.array([args[i][j] for i in sel], dtype=t) for j in range(ar)]
+            for form, lay in ((f"array {tname}", "C"), (f"strided array {tname}", "strided")):
+                try:
+                    argv = [cc.as_layout(c, lay, fill=1) for c in cols]
+                    out = np.asarray(fn(*argv))
+                    got = [int(v) for v in out.reshape(-1)] if out.shape == (len(sel),) else ["wrong shape"] * len(sel)
+                    if not all(np.array_equal(a_, c) for a_, c in zip(argv, cols)):
+                        got = ["argument modified"] * len(sel)
+                except Exception as ex:
+                    got = [f"raised {type(ex).__name__}: {ex}"[:160]] * len(sel)
+                for i, g_ in zip(sel, got):
+                    yield form, i, exp[i], g_
+            step = max(1, len(sel) // 150)
+            for i in sel[::step] + sel[-3:]:
+                try:
+                    got = int(fn(*[t(x) for x in args[i]]))
+                except Exception as ex:
+                    got = f"raised {type(ex).__name__}: {ex}"[:160]
+                yield f"scalar {tname}", i, exp[i], got
 
 
 def replay_gray(ctx, cases, label):
@@ -101,6 +128,8 @@ def replay_gray(ctx, cases, label):
         want = [int(x) for x in c["ret"]]
         for lay in (["C", "strided"] if c["layout"] == "C" else ["F", "T"]):
             A, B = cc.as_layout(U, lay, fill=1), cc.as_layout(V, lay, fill=2)
+            if c.get("bc") == "row":            # second operand: a row vector, broadcast over the rows of the first
+                B = np.array(V[0], dtype=np.int64) if lay in ("C", "F") else np.array(V[0:1], dtype=np.int64)
             try:
                 got = misc.count_bit_errors(A, B) if c["axis"] == -1 else misc.count_bit_errors(A, B, c["axis"])
                 got = [int(x) for x in np.asarray(got).reshape(-1)]
@@ -109,7 +138,7 @@ def replay_gray(ctx, cases, label):
             if got == want:
                 ctx.ok((label, "errmat", lay, c["axis"], str(c["u"])[:60]))
             else:
-                bad.append({"stage": "R", "op": "errmat", "w": c["w"], "u": U.tolist(), "v": V.tolist(), "form": f"{lay} axis={c['axis']}",
+                bad.append({"stage": "R", "op": "errmat", "w": c["w"], "u": U.tolist(), "v": np.asarray(B).tolist(), "form": f"{lay} axis={c['axis']}",
                             "exp": want, "got": got})
     for op, fn in (("b2g", conversion.binary2gray), ("g2b", conversion.gray2binary)):
         cs = by[op]
@@ -132,17 +161,36 @@ def replay_gray(ctx, cases, label):
             else:
                 bad.append({"stage": "R", "op": "err", "w": cs[i]["w"], "u": args[i][0], "v": args[i][1], "form": form, "exp": e, "got": got})
         # popcount alone: the pairs (u, 0)
-        z = [(a[0], e) for a, e in zip(args, exp) if a[1] == 0]
-        if z:
+        z0 = [(a[0], e) for a, e in zip(args, exp) if a[1] == 0]
+        for tname in ["int64"] + [t_ for t_ in DTYPES + ["int8", "int16"] if t_ != "int64"]:
+            z = [(a, e) for a, e in z0 if a <= np.iinfo(getattr(np, tname)).max]
+            if not z:
+                continue
             try:
-                got = [int(v) for v in np.asarray(misc.count_bits(np.array([a for a, _ in z], dtype=np.int64)))]
+                got = [int(v) for v in np.asarray(misc.count_bits(np.array([a for a, _ in z], dtype=getattr(np, tname))))]
+                got1 = int(misc.count_bits(getattr(np, tname)(z[-1][0])))          # a numpy scalar
+                if got1 != z[-1][1]:
+                    got[-1] = got1
             except Exception as ex:
                 got = [f"raised {type(ex).__name__}"] * len(z)
             for (a, e), gv in zip(z, got):
                 if gv == e:
-                    ctx.ok((label, "pop", a))
+                    ctx.ok((label, "pop", tname, a))
                 else:
-                    bad.append({"stage": "R", "op": "pop", "w": cs[0]["w"], "u": a, "v": 0, "form": "array", "exp": e, "got": gv})
+                    bad.append({"stage": "R", "op": "pop", "w": cs[0]["w"], "u": a, "v": 0, "form": f"array {tname}", "exp": e, "got": gv})
+        # empty operands: the sum over no positions is 0 (total) / an array of zeros (per axis)
+        for shp, axis, want in (((0,), None, 0), ((0, 3), 0, [0, 0, 0]), ((2, 0), 1, [0, 0])):
+            try:
+                e0 = np.zeros(shp, dtype=np.int64)
+                got = misc.count_bit_errors(e0, e0.copy()) if axis is None else misc.count_bit_errors(e0, e0.copy(), axis)
+                same = np.asarray(got).tolist() == want
+            except Exception as ex:
+                got, same = f"raised {type(ex).__name__}: {ex}"[:120], False
+            if same:
+                ctx.ok((label, "err-empty", str(shp)))
+            else:
+                bad.append({"stage": "R", "op": "err", "w": cs[0]["w"], "u": f"empty {shp}", "v": f"empty {shp}", "form": f"empty axis={axis}",
+                            "exp": want, "got": got if isinstance(got, str) else np.asarray(got).tolist()})
         # arrays: total and per-axis sums of the exact per-pair counts TLC emitted
         n = len(args) - len(args) % 6
         if n >= 6:
@@ -362,14 +410,20 @@ def phase_lists(M, rng, thorough):
     base = [0.0, math.pi / M, math.pi / 4, 0.3, -1.7, 2 * math.pi, 100.0]
     out = [[0.0, math.pi / M, 0.3], [math.pi / 4, 0.0]]
     k = 6 if thorough else 1
-    for _ in range(k):
+    for j in range(k):
         n = int(rng.randint(1, 4))
-        out.append([float(rng.choice(base))] + [float(rng.uniform(-7, 7)) for _ in range(n)])
+        # the construction phase rotates deterministically over the base values (every order x seed meets negative / > 2 pi phases)
+        first = base[(int(math.log2(M)) + j + int(rng.randint(0, 7))) % len(base)] if j else base[(int(math.log2(M)) + phase_lists.turn) % len(base)]
+        out.append([float(first)] + [float(rng.uniform(-7, 7)) for _ in range(n)])
     return out
+
+
+phase_lists.turn = 0
 
 
 def table_specs(ctx):
     thorough = ctx.tier == "thorough"
+    phase_lists.turn = ctx.seed
     rng = np.random.RandomState(ctx.seed + 15)
     specs = [dict(kind="BPSK", M=2, calls=False), dict(kind="QPSK", M=4, calls=False),
              dict(kind="QPSK", M=4, phases=[0.0, 0.0, math.pi / 4], calls=False)]
@@ -480,7 +534,9 @@ def replay(ctx, data):
     if c["op"] == "errmat":
         from pyphysim.util import misc
         lay, axis = c["form"].split()[0], int(c["form"].split("=")[1])
-        A, B = cc.as_layout(np.array(c["u"], dtype=np.int64), lay, fill=1), cc.as_layout(np.array(c["v"], dtype=np.int64), lay, fill=2)
+        A = cc.as_layout(np.array(c["u"], dtype=np.int64), lay, fill=1)
+        B = np.array(c["v"], dtype=np.int64)
+        B = cc.as_layout(B, lay, fill=2) if B.shape == A.shape else B
         got = misc.count_bit_errors(A, B) if axis == -1 else misc.count_bit_errors(A, B, axis)
         if [int(x) for x in np.asarray(got).reshape(-1)] != list(c["exp"]):
             ctx.violation(f"count_bit_errors of {lay}-layout 2x3 arrays, axis={axis}: expected {c['exp']}, got {np.asarray(got).tolist()}", c)
